@@ -46,6 +46,10 @@ pub struct Ledger {
     /// destructor runs of zero-sized `Token` elements (they have no identity: counted only)
     #[serde(default)]
     pub zst_drops: u32,
+    /// the destructor of the (original) element with this id panics, once, unless the thread
+    /// is unwinding already
+    #[serde(default)]
+    pub drop_panic_id: Option<u32>,
 }
 
 static LEDGER: Mutex<Ledger> = Mutex::new(Ledger {
@@ -60,6 +64,7 @@ static LEDGER: Mutex<Ledger> = Mutex::new(Ledger {
     clone_panic_at: None,
     injected_panics: 0,
     zst_drops: 0,
+    drop_panic_id: None,
 });
 
 fn ledger() -> std::sync::MutexGuard<'static, Ledger> {
@@ -78,6 +83,11 @@ pub fn ledger_reset(n: usize, run: u32, clone_panic_at: Option<u32>) {
         clone_panic_at,
         ..Default::default()
     };
+}
+
+pub fn set_drop_panic(id: Option<u32>) {
+    let _p = alloc::pause();
+    ledger().drop_panic_id = id;
 }
 
 pub fn ledger_snapshot() -> Ledger {
@@ -138,6 +148,14 @@ impl Drop for Elem {
             if l.dropped[id] > 1 {
                 let t = sim::tid().unwrap_or(99);
                 l.double_drops.push((self.id, seq, t));
+            }
+            if l.drop_panic_id == Some(self.id) && l.dropped[id] == 1 && !std::thread::panicking() {
+                // a destructor that panics (the element counts as destroyed): whoever was
+                // disposing of a run of elements must still dispose of the others
+                l.injected_panics += 1;
+                drop(l);
+                drop(_p);
+                std::panic::resume_unwind(Box::new(Injected("element-destructor")));
             }
         } else {
             l.clone_drops[id] += 1;
